@@ -53,8 +53,12 @@ class PostgresImpl(SqlImpl):
                 )
 
             def int_type_range(dtype: Int) -> tuple[int, int]:
-                is_signed = dtype.__class__.__name__[0] == "I"
-                bits = int(dtype.__class__.__name__[4 - is_signed :])
+                name = types.without_const(dtype).__class__.__name__
+                if name == "Int":
+                    # the generic integer type (e.g. of `a // 2`) is a 64 bit integer in the database
+                    name = "Int64"
+                is_signed = name[0] == "I"
+                bits = int(name[4 - is_signed :])
 
                 if is_signed:
                     return (-(2 ** (bits - 1)), 2 ** (bits - 1) - 1)
